@@ -5,7 +5,10 @@
   size/padding and routing blocks: `& | >> << % //`, unary minus, `!=`, text as lists of code points (constants,
   `==`/`!=`, `[:n]`, `[n:]`, `[i]`, `[::-1]`, `startswith`, `"{0:0Nb}".format`, `int()`, `bool()`, literal str→str
   dict lookup, `os.path.join(x, "")`), `in` on literal int tuples, `int(np.prod(shape))`, `True`/`False`,
-  `x[a:b]`, `numpy.frombuffer(four bytes, ">u4")[0]`.  `harness/py2lean.py` translates the
+  `x[a:b]`, `numpy.frombuffer(four bytes, ">u4")[0]`; in a third round for quoting and the DMR dimension readers:
+  `str.replace`, text `+`, `str.find(p, n)`, `for x in <list value>` (total: a fold over the items, no `break`),
+  `x.append(e)` / `t += (e,)`, `[]` / `()`, XML elements as attribute dicts (`el.get(k)`), dicts str → int (`d[k]`).
+  `harness/py2lean.py` translates the
   *source text* of the chosen function bodies into `Stmt` values (pure syntax → syntax); the semantics below is the
   trusted reading of that fragment.  Theorems in Props/ relate the interpreted source to the hand-written model.
 -/
